@@ -196,6 +196,18 @@ where
     }
 }
 
+impl<T> Drop for RenderEffect<T> {
+    fn drop(&mut self) {
+        // The spawned task holds a clone of `value` until the executor polls it again and sees
+        // that the channel is closed. Release the retained state now: otherwise effects nested
+        // inside it (e.g., the dynamic children of a view branch that was just replaced) stay
+        // alive and, if they were already notified, run once more after they were disposed.
+        if let Ok(mut value) = self.value.write() {
+            value.take();
+        }
+    }
+}
+
 impl<T> ToAnySubscriber for RenderEffect<T> {
     fn to_any_subscriber(&self) -> AnySubscriber {
         AnySubscriber(
